@@ -130,3 +130,25 @@ Section Par.
              Ok (reps ++ rest, ex)
     end.
 End Par.
+
+(* ---- file mode: one multi-rank call (backend/cache_parallel.py) ---- *)
+Section FilePar.
+  Variable rank_body : (pyval -> pyval -> res pyval) -> (pyval -> res pyval) -> (pyval -> res pyval)
+                       -> pyval -> pyval -> pyval -> res pyval.
+  (* rank_body apply bcast gather loaded rank0 size_gt1 = VTuple [VList writes] *)
+  Variable n : nat.
+  Variable app : nat -> pyval -> res pyval.   (* rank -> the broadcast task dictionary -> outcome *)
+
+  (* rank 0 reads the task file ([loaded]); bcast delivers it to every rank; every rank calls
+     the function; gather delivers all ranks' values in rank order to rank 0 (None elsewhere);
+     the result is, per rank, the list of values handed to backend_write_file *)
+  Definition file_par (loaded : pyval) : res (list pyval) :=
+    mapM (fun r =>
+            rank_body (fun _ d => app r d)
+                      (fun _ => Ok loaded)
+                      (fun _ => outs <- mapM (fun q => app q loaded) (ranks n) ;;
+                                Ok (if Nat.eqb r 0 then VList outs else VNone))
+                      (if Nat.eqb r 0 then loaded else VNone)
+                      (VBool (Nat.eqb r 0)) (VBool (Nat.ltb 1 n)))
+         (ranks n).
+End FilePar.
